@@ -869,6 +869,12 @@ def softmax_last(E, x, log=False):
         lse = T.tfn("log", s)
         lseb = T.expand_dims(lse, -1) if isinstance(lse, Tensor) else lse
         return C.binop("-", x, lseb)
+    try:
+        # machine-arithmetic note for float-hazard preconditions (contracts/C13.py): in float32 a softmax output is >= 0,
+        # NOT > 0 (exp underflows once a logit is ~104 below the row maximum)
+        p.from_softmax = True
+    except AttributeError:
+        pass
     return p
 
 
